@@ -180,6 +180,7 @@ class Repo:
                 if '/tests/' in rel:
                     continue
                 self.modules[rel] = Module(rel, p, overrides.get(rel))
+                self.modules[rel].repo = self
         c = self.root / 'conftest.py'
         if c.exists():
             self.modules['conftest.py'] = Module('conftest.py', c)
